@@ -31,9 +31,32 @@ def analyse(h):
     includes, macros, decl_lines = [], [], []
     first_nondirective = None
     include_after_decl = False
+    pack_depth, state_leak = 0, []
     for line in txt.split('\n'):
         s = line.strip()
         if s.startswith('#'):
+            # compiler / preprocessor state that outlives the header: packing that is not restored, foreign #undef
+            m = re.match(r'#\s*pragma\s+pack\s*\((.*)\)', s)
+            if m:
+                arg = m.group(1).strip()
+                if arg.startswith('push'):
+                    pack_depth += 1
+                elif arg.startswith('pop'):
+                    pack_depth -= 1
+                    if pack_depth < 0:
+                        state_leak.append('pack(pop) without push'); pack_depth = 0
+                else:
+                    state_leak.append('pack(%s) without push' % arg)
+                continue
+            m = re.match(r'#\s*pragma\s+(push_macro|pop_macro)', s)
+            if m:
+                state_leak.append(m.group(1))
+                continue
+            m = re.match(r'#\s*undef\s+([A-Za-z_]\w*)', s)
+            if m:
+                if m.group(1) not in [n for n, _ in macros]:
+                    state_leak.append('undef of foreign macro %s' % m.group(1))
+                continue
             m = re.match(r'#\s*include\s*"(avtp/[^"]+)"', s)
             if m:
                 includes.append(m.group(1))
@@ -52,6 +75,8 @@ def analyse(h):
             decl_lines.append(s)
             if first_nondirective is None:
                 first_nondirective = s
+    if pack_depth != 0:
+        state_leak.append('pack(push) without pop')
     tokens = sorted(set(idents('\n'.join(decl_lines))))
     # declared names from the AST of the header alone
     tu = run_clang_ast(path, extra=['-x', 'c'])
@@ -80,7 +105,7 @@ def analyse(h):
                     if c.get('kind') == 'EnumConstantDecl' and c['name'] in textids:
                         ordinary.append(c['name'])
     return {'name': h, 'includes': includes, 'macros': macros, 'ordinary': sorted(set(ordinary)), 'tags': sorted(set(tags)), 'tokens': tokens,
-            'include_after_decl': include_after_decl}
+            'include_after_decl': include_after_decl, 'state_leak': state_leak}
 
 def generate(outdir):
     hs = public_headers()
@@ -94,8 +119,9 @@ def generate(outdir):
         ident = 'h_' + re.sub(r'[^A-Za-z0-9]', '_', u['name'][5:-2])
         names.append(ident)
         macros = '[' + ';\n      '.join('(%s, %s)' % (coq_str(n), sl(b)) for n, b in u['macros']) + ']'
-        o.append('Definition %s : hunit := mkhunit %s\n    %s\n    %s\n    %s\n    %s\n    %s\n    %s.' % (
-            ident, coq_str(u['name']), sl(u['includes']), macros, sl(u['ordinary']), sl(u['tags']), sl(u['tokens']), 'true' if u['include_after_decl'] else 'false'))
+        o.append('Definition %s : hunit := mkhunit %s\n    %s\n    %s\n    %s\n    %s\n    %s\n    %s %s.' % (
+            ident, coq_str(u['name']), sl(u['includes']), macros, sl(u['ordinary']), sl(u['tags']), sl(u['tokens']), 'true' if u['include_after_decl'] else 'false',
+            'true' if u['state_leak'] else 'false'))
         o.append('')
     o.append('Definition all_headers : list hunit := [%s].' % '; '.join(names))
     write_if_changed(os.path.join(outdir, 'Headers.v'), '\n'.join(o) + '\n')
